@@ -101,6 +101,25 @@ pub fn run_crash(rep: &mut Report, label: &str, histories: Vec<History>, spec: C
     if histories.is_empty() {
         return;
     }
+    if let Some(req) = crate::report::replay_request("crashx") {
+        let want = req["artefact"]["history"]["history"].as_str().unwrap_or("").to_string();
+        if req["artefact"]["mode"].as_str() == Some(&format!("{:?}", spec.mode)) {
+            if let Some(h) = histories.iter().find(|h| h.name == want) {
+                let p = req["artefact"]["point"]["crash_after_fs_ops"].as_u64().unwrap_or(0) as usize;
+                let torn = req["artefact"]["point"]["torn_to_bytes"].as_u64().map(|x| x as usize);
+                let mut spec2 = spec.clone();
+                spec2.nested = spec2.nested && req["artefact"]["point"]["nested_crash_after_recovery_fs_ops"].as_u64().is_some();
+                let found = replay_crash_point(h, &spec2, p, torn);
+                let want_clause = req["clause"].as_str().unwrap_or("");
+                let hit = found.iter().find(|f| f.clause == want_clause).or(found.first());
+                crate::report::replay_done(hit.map(|f| (f.clause.clone(), f.detail.clone())));
+            }
+        }
+        return;
+    }
+    if crate::report::replay_active() {
+        return;
+    }
     let r = explore_crashes(&histories, &spec, workers(), Some(Instant::now() + budget));
     for m in r.machinery.iter() {
         rep.machinery.push(format!("{}: {}", label, m));
@@ -242,6 +261,29 @@ pub fn run_faults(rep: &mut Report, label: &str, histories: Vec<History>, classe
     let only = std::env::var("RDBCHECK_ONLY").ok();
     let histories: Vec<History> = histories.into_iter().filter(|h| only.as_ref().map(|o| h.name.contains(o.as_str())).unwrap_or(true)).collect();
     if histories.is_empty() {
+        return;
+    }
+    if let Some(req) = crate::report::replay_request("faultx") {
+        let want = req["artefact"]["history"]["history"].as_str().unwrap_or("").to_string();
+        if let Some(h) = histories.iter().find(|h| h.name == want) {
+            if req["artefact"]["classes"].as_u64() == Some(classes as u64) {
+                let inj = Injection {
+                    at_call: req["artefact"]["injection"]["failing_call_index"].as_u64().unwrap_or(0),
+                    sticky: req["artefact"]["injection"]["mode"].as_str() == Some("sticky"),
+                    classes,
+                };
+                let (r, o) = one_injection(h, Some(inj), classes);
+                let res = match (r.and_then(|r| r.violation), o) {
+                    (Some(v), _) => Some(v),
+                    (None, Some(crate::run::Outcome::Ok)) | (None, None) => None,
+                    (None, Some(o)) => Some(("C08.panic_or_hang".to_string(), format!("{:?}", o))),
+                };
+                crate::report::replay_done(res);
+            }
+        }
+        return;
+    }
+    if crate::report::replay_active() {
         return;
     }
     let t0 = Instant::now();
@@ -414,6 +456,37 @@ pub fn c15(tier: &str) -> ! {
         match (o, built) {
             (Some(crate::run::Outcome::Ok), Some(Ok(img))) => imgs.push(img),
             (o, r) => rep.machinery.push(format!("building image {} failed: {:?} {:?}", h.name, o, r.map(|r| r.err()))),
+        }
+    }
+    if let Some(req) = crate::report::replay_request("corruptx") {
+        let case = &req["artefact"]["case"];
+        let name = case["image"].as_str().unwrap_or("");
+        if let Some((ii, img)) = imgs.iter().enumerate().find(|(_, i)| i.name == name) {
+            let fname = case["file"].as_str().unwrap_or("");
+            if let Some(path) = img.image.keys().find(|p| p.file_name().map(|n| n.to_string_lossy() == fname).unwrap_or(false)) {
+                let m = match case["mutation"].as_str().unwrap_or("") {
+                    "set 0x00" => Mutation::Zero,
+                    "set 0xff" => Mutation::Ones,
+                    "+1" => Mutation::Inc,
+                    "truncate" => Mutation::Truncate,
+                    s => Mutation::FlipBit(s.trim_start_matches("flip bit ").parse().unwrap_or(0)),
+                };
+                let c = Case { image: ii, file: path.clone(), offset: case["offset"].as_u64().unwrap_or(0) as usize, mutation: m };
+                let slot: Arc<Mutex<Option<(String, String)>>> = Arc::new(Mutex::new(None));
+                let slot2 = Arc::clone(&slot);
+                let img2 = img.clone();
+                let s = crate::sched::Sched::new(crate::sched::Mode::Fixed);
+                let o = crate::run::run_once(&s, move || {
+                    *slot2.lock().unwrap() = eval_case(&img2, &c).1;
+                });
+                let v = slot.lock().unwrap().take();
+                let res = match (v, o) {
+                    (Some(v), _) => Some(v),
+                    (None, Some(crate::run::Outcome::Ok)) | (None, None) => None,
+                    (None, Some(o)) => Some(("C15.panic_or_hang".to_string(), format!("{:?}", o))),
+                };
+                crate::report::replay_done(res);
+            }
         }
     }
     let only = std::env::var("RDBCHECK_ONLY").ok();
